@@ -215,6 +215,14 @@ func genValue(tp *kernel.Tape, t wType, proto int) (interface{}, []byte) {
 		return v, cqlspec.EncText(v)
 	case cqlspec.TBlob:
 		v := [][]byte{{1, 2, 3}, {}, {0}, bytes.Repeat([]byte{0xff}, 70)}[tp.Next(4)]
+		if tp.Chance(1, 16) {
+			// long and very repetitive: compresses at several hundred to one
+			n := []int{4096, 20000, 60000}[tp.Next(3)]
+			if proto < 3 {
+				n = 4096 // collection elements are limited to 64 KiB before protocol 3
+			}
+			v = bytes.Repeat([]byte{0}, n)
+		}
 		return v, append([]byte{}, v...)
 	case cqlspec.TBoolean:
 		v := tp.Next(2) == 1
